@@ -214,6 +214,20 @@ check("C02",
       "Lean 4 proofs (attribute table, rational rounding envelope via linarith) + differential correspondence + tree round-trip exploration",
       "DESIGN.md §4 C02")
 
+check("C13",
+      "Theorems (Lean, any number of workers, steps and any interleaving): with pairwise disjoint outputs every output "
+      "receives exactly what its own worker wrote, in order (interleaving_independent), hence parallel = sequential on "
+      "intact archives (parallel_eq_sequential); if any worker raises, the thread-mode join re-raises an exception some "
+      "worker raised (errors_surface_threads); the executable scheduler used by the harness only produces interleavings "
+      "(runSchedule_interleave); counter-example theorem for the pinned process mode whose queue was not shared (F9, "
+      "repaired). Tied to py7zr by real thread-parallel extractions whose output writes are ordered by a harness "
+      "scheduler (all interleavings for small shapes), every start order of thread and process workers, the sequential "
+      "path, damage at every folder position (CRC, unwritable output), and concurrent independent SevenZipFile objects. "
+      "Partial: disjointness of file handles/decoders is an hypothesis the exploration tests; orders below write "
+      "granularity are the OS scheduler's.",
+      "Lean 4 proof over all interleavings of a worker-step model + scheduler-enforced differential correspondence with real threads/processes",
+      "DESIGN.md §4 C13")
+
 ALL = ["C%02d" % i for i in range(1, 21)]
 REASON_PENDING = "not yet claimed in this revision: model/theorems/correspondence for it are still being built (see DESIGN.md §8.3 staging)"
 
